@@ -1,2 +1,10 @@
 import Proofs.C04
 #print axioms C04.tidy_fastpaths_agree
+#print axioms C04.tidy_uncached_spec
+#print axioms C04.tidy_spec
+#print axioms C04.tidy_value_spec
+#print axioms C04.no_ns_MB_substring
+#print axioms C04.reader_reports_base_unit
+#print axioms C04.reader_is_report
+#print axioms C04.reported_unit_value_independent
+#print axioms C04.unit_filter_matches_either
